@@ -53,7 +53,9 @@ def gen_case(rng, maxops):
         r = rng.random()
         if k in SEQ:
             n = lens[c]
-            if r < .22: ops.append('p%d,%d' % (c, v())); lens[c] += 1
+            if rng.random() < .06:           # a failing operation: wrong-typed element; nothing may change
+                ops.append(rng.choice(['w%d' % c, 'W%d,%d' % (c, rng.randrange(0, (n or 0) + 1)), 'v%d,%d' % (c, rng.randrange(0, (n or 0) + 1))]))
+            elif r < .22: ops.append('p%d,%d' % (c, v())); lens[c] += 1
             elif r < .32:
                 ops.append('o%d' % c); lens[c] = max(0, n - 1)
             elif r < .42:
@@ -87,7 +89,8 @@ def gen_case(rng, maxops):
             if lens[c] is None:
                 lens[c] = 0 if kinds[c] is None else 3      # harmless guess: only steers index choice
         elif k in MAP:
-            if r < .40: ops.append('m%d,%d,%d' % (c, v(), v()))
+            if rng.random() < .06: ops.append('u%d,%d' % (c, v()))       # failing: wrong-typed value
+            elif r < .40: ops.append('m%d,%d,%d' % (c, v(), v()))
             elif r < .60: ops.append('n%d,%d' % (c, v()))
             elif r < .66: ops.append('z%d,0' % c)
             elif r < .80:
@@ -132,6 +135,8 @@ def oracle(case, impl, spec):
             return 'step %d: %s' % (n, a['bad'][-80:])
         if a['flags']:
             return 'step %d: ledger flags %s (DBL = destructed twice, UNK = unknown token, HELDDEAD = contained element already finalised)' % (n, a['flags'])
+        if a['out'].endswith('Error') and (a['C'] != 'C0' or a['D'] != 'D' or a['Z'] != 'Z0'):
+            return 'step %d raised %s but constructed/destructed elements (%s %s %s)' % (n, a['out'], a['C'], a['D'], a['Z'])
         toks = [int(t) for _, t in CELL.findall(a['dump']) if t != '0']
         if len(toks) != len(set(toks)):
             return 'step %d: the same element token is held twice (shared between containers or duplicated): %s' % (n, a['dump'])
@@ -185,6 +190,7 @@ CORPUS = [
     'G0:0,5:5,10:10,15:15,20:20 n0,0 n0,10 m0,25,1 m0,5,9 y0 a0,1 z0,0 d1 d0',
     'E1,2,3,4,5,6,7 x0,0 i0,3,9 q0 F1,2 a1,0 c0,1 z0,2 y1 d0 d1 d2',            # wide elements: memmove / realloc / sort swaps
     'R1:1,2:2,3:3 H9:9 a1,0 a0,1 m0,2,5 n1,1 d0 d1',                            # assign between maps of different element types
+    'A1,2 w0 W0,1 v0,0 L3 w1 W1,0 v1,0 F7,8 w2 T1:1 u3,1 u3,9 R2:2 u4,2 d0 d1 d2 d3 d4',       # failing operations change nothing
 ]
 
 
